@@ -163,7 +163,8 @@ def submaps(env, fam):
 
 KINDS = ["simplify", "substitute", "fv", "atoms", "qf", "types", "theory", "logic", "get_type", "size",
          "smtlib_dag", "smtlib_tree", "serialize", "reparse", "nnf", "aig", "prenex", "build", "const",
-         "bad_substitute", "bad_build", "bad_simplify", "simplify_result", "simplify_around", "subst_interp"]
+         "bad_substitute", "bad_build", "bad_simplify", "simplify_result", "simplify_around", "subst_interp",
+         "theory_mutate"]
 
 N_INTERP = 4      # interpretations of f1 / f2 used by `subst_interp`: j % N_INTERP (the last one: none)
 
@@ -275,6 +276,13 @@ def do_call(env, fam, F, maps, call):
         if kind == "simplify_result":
             return g.simplify()
         return m.Or(m.Not(g), fam.pool["b"][1], m.And(g, fam.pool["b"][0])).simplify()
+    if kind == "theory_mutate":
+        # a client modifies the Theory object it received (get_theory hands out a copy since fix f034130)
+        th = env.theoryo.get_theory(f)
+        th.strings = True
+        th.uninterpreted = True
+        th.linear = False
+        return "mutated"
     if kind == "subst_interp":
         # substitute with map (j // N_INTERP) and interpretation (j % N_INTERP) of the function symbols
         return f.substitute(maps[(j // N_INTERP) % len(maps)], interpretations=interpretations_of(env, fam, j))
@@ -407,6 +415,10 @@ def adversarial(rng):
             out.append(("uf-shared-then-app", [("logic", u(qq), 0)], ("logic", u(h), 0)))
             out.append(("uf-parent-child", [("theory", u(h), 0), ("theory", u(qq), 0), ("logic", u(12), 0)],
                         ("theory", u(23), 0)))
+    # a client mutating the returned Theory must not change later answers
+    for i in (0, 1, 2, 3, u(14), u(16), u(0), u(12)):
+        out.append(("theory-client-mutation", [("theory_mutate", i, 0)], ("logic", i, 0)))
+        out.append(("theory-client-mutation", [("logic", i, 0), ("theory_mutate", i, 0)], ("theory", i, 0)))
     # same substitution map, different (or no) interpretation of one function symbol, over shared f(...) sub-terms
     for h in (3, 4, 11, 12):                  # formulas of the function-symbol block that apply f1 / f2 / fIB
         for mp in (8, 0, 2):                  # the maps {} , {x: y}, {x: 7}
